@@ -34,14 +34,14 @@ type wprop struct {
 func (x *rx) sub(sc *wscope, call *ast.CallExpr) *wscope {
 	idx := -1
 	for i, a := range call.Args {
-		if core.ObjOf(x.info, a) == sc.ele {
+		if c07.Obj(x.info, a) == sc.ele {
 			idx = i
 		}
 	}
 	if idx < 0 {
 		return nil
 	}
-	f := core.CalleeFunc(x.info, call)
+	f := c07.CalleeF(x.info, call)
 	if f == nil {
 		return nil // builtin (append)
 	}
@@ -135,7 +135,7 @@ func (x *rx) viaLocal(args []ast.Expr) bool {
 	for _, a := range args {
 		switch e := c07.Strip(x.info, a).(type) {
 		case *ast.Ident:
-			if v, ok := core.ObjOf(x.info, e).(*types.Var); ok && !v.IsField() && v.Pkg() != nil && v.Parent() != v.Pkg().Scope() {
+			if v, ok := c07.Obj(x.info, e).(*types.Var); ok && !v.IsField() && v.Pkg() != nil && v.Parent() != v.Pkg().Scope() {
 				local = true
 			}
 		}
